@@ -32,6 +32,9 @@ RULE = (
     "number 1..2^48-1 biased to boundaries, receiver's last valid sequence number below it, algorithm {A+C, authentication only}, "
     "payload {GroupValueWrite/Response with 0..238 data octets, 6-bit value, one instance of every APCI service class}, priority, "
     "repeat, ack, hop count); plus every plain APDU length 2..240 x both algorithms enumerated once. Every frame is additionally "
+    "sent through the real send path (a sender XKNX with current_address = the sender, CEMIHandler.send_telegram, recording "
+    "interface stub that confirms with L_Data.con; telegram once with the default 0.0.0 source and once with an explicit source; "
+    "always A+C, the only algorithm the send path selects) and the recorded frame is given to a fresh receiver; and it is "
     "replayed as a short history on ONE receiver: two bit-damaged copies and a copy forged with another key under a higher sequence "
     "number first (all must be discarded), then the intact frame (must be delivered once, unchanged). Every case is non-trivial "
     "(distinct by input); frames whose secured NPDU exceeds 254 octets are outside the domain."
@@ -189,6 +192,100 @@ def oracle(ctx, spec) -> None:
     if xknx.connection_manager.undecoded_data_secure != 0:
         ctx.fail("C15:counted-undecoded", spec, "delivered but undecoded_data_secure was incremented")
     history_after_damaged_copies(ctx, spec, raw, plain, apdu)
+    send_path(ctx, spec, plain, apdu)
+
+
+class RecordingInterface:
+    """Stands in for the tunnel / routing object below KNXIPInterface: records the frame and confirms it."""
+
+    def __init__(self, xknx) -> None:
+        self.xknx = xknx
+        self.sent: list = []
+
+    async def send_cemi(self, cemi) -> None:
+        self.sent.append(cemi)
+        raw = cemi.to_knx()
+        self.xknx.cemi_handler.handle_raw_cemi(bytes([CEMIMessageCode.L_DATA_CON.value]) + raw[1:])
+
+
+_LOOP: dict = {}
+
+
+def _loop():
+    """One event loop per process (fork-safe), closed at exit."""
+    import asyncio
+    import atexit
+    import os
+
+    pid = os.getpid()
+    if pid not in _LOOP:
+        _LOOP.clear()
+        lp = asyncio.new_event_loop()
+        _LOOP[pid] = lp
+        atexit.register(lambda: lp.is_closed() or lp.close())
+    return _LOOP[pid]
+
+
+def send_path(ctx, spec, plain, apdu: bytes) -> None:
+    """The real send path: Telegram -> sender XKNX.cemi_handler.send_telegram (Data Secure, source address
+    substitution, L_Data.req to the interface, L_Data.con back) -> recorded frame -> receiver.handle_raw_cemi.
+    Telegrams are created with the DEFAULT source address (as devices / user code do) and with an explicit one."""
+    import asyncio
+
+    sender_addr = IndividualAddress(spec["src"])
+    for variant in ("default-source", "explicit-source"):
+        sx = XKNX()
+        sx.current_address = sender_addr
+        sx.cemi_handler.data_secure = DataSecure(
+            group_key_table={GroupAddress(spec["dst"]): bytes(spec["key"])}, individual_address_table={}, last_sequence_number_sending=spec["seq"]
+        )
+        stub = RecordingInterface(sx)
+        sx.knxip_interface._interface = stub  # noqa: SLF001
+        kw = {} if variant == "default-source" else {"source_address": IndividualAddress(spec["src"])}
+        tg = Telegram(destination_address=GroupAddress(spec["dst"]), payload=plain.payload, tpci=type(plain.tpci)(), **kw)
+        ctx.classes[f"send-path:{variant}"] += 1
+        try:
+            _loop().run_until_complete(asyncio.wait_for(sx.cemi_handler.send_telegram(tg), 30))
+        except Exception as e:  # noqa: BLE001
+            ctx.fail(f"C15:send-path:sender-exc:{exc_site(e)}", spec, f"send_telegram ({variant}) raised {type(e).__name__}: {e}")
+            continue
+        if len(stub.sent) != 1 or tg.data_secure is not True:
+            ctx.fail(f"C15:send-path:not-sent-secured:{variant}", spec, f"{len(stub.sent)} frames handed to the interface, telegram.data_secure={tg.data_secure!r}")
+            continue
+        wire = stub.sent[0].to_knx()
+        try:
+            d = L.decode_ldata(wire)
+            L.classify_secure_bits(wire)
+        except (L.RefError, AssertionError) as e:
+            ctx.fail(f"C15:send-path:wire-not-a-secure-frame:{variant}", spec, f"{wire.hex()}: {e}")
+            continue
+        if d["code"] != L.L_DATA_REQ or d["src"] != spec["src"] or d["dst"] != spec["dst"] or int.from_bytes(d["apdu"][3:9], "big") != spec["seq"]:
+            ctx.fail(f"C15:send-path:wire-header:{variant}", spec, f"{wire.hex()} (expected L_Data.req from {spec['src']:#06x} to {spec['dst']:#06x} seq {spec['seq']})")
+        if d["tpci"] == 0 and ccm.unsecure(bytes(spec["key"]), scf=d["apdu"][2], src=d["src"], dst=d["dst"], group=True, eff=d["eff"], tpci=0, asdu_raw=d["apdu"][3:]) != apdu:
+            ctx.fail(
+                f"C15:send-path:reference-cannot-verify:{variant}",
+                spec,
+                f"independent CCM (source address as on the wire {d['src']:#06x}) does not accept {wire.hex()}",
+            )
+        # what a gateway makes of it on the bus side: the same frame as L_Data.ind
+        xknx, rec = make_receiver(spec)
+        try:
+            xknx.cemi_handler.handle_raw_cemi(bytes([L.L_DATA_IND]) + wire[1:])
+        except Exception as e:  # noqa: BLE001
+            ctx.fail(f"C15:receiver-exc:{exc_site(e)}", spec, f"handle_raw_cemi raised {type(e).__name__}: {e} (send path, {variant})")
+            continue
+        got = delivered(xknx, rec)
+        if len(got) != 1:
+            ctx.fail(
+                f"C15:send-path:not-delivered:{variant}" if not got else "C15:delivered-more-than-once",
+                spec,
+                f"{len(got)} telegrams delivered for the frame send_telegram produced ({variant}, sender current_address {sender_addr}): {wire.hex()}; "
+                f"undecoded_data_secure={xknx.connection_manager.undecoded_data_secure}",
+            )
+            continue
+        t = got[0]
+        if t.payload != plain.payload or bytes(t.payload.to_knx()) != apdu or t.data_secure is not True or t.source_address != sender_addr or t.destination_address != plain.dst_addr:
+            ctx.fail(f"C15:send-path:telegram-differs:{variant}", spec, f"sent {plain.payload} from {sender_addr}; received {t} data_secure={t.data_secure}")
 
 
 def history_after_damaged_copies(ctx, spec, raw: bytes, plain, apdu: bytes) -> None:
